@@ -6,6 +6,7 @@ cascade part-way: each phase's local facts.  TABLE07 extends engine.TABLE with t
 that the cascade calls on the players' behalf (automation) must find its own verifier satisfied
 (`accepts_*` components at the call sites).
 """
+from pokerkit.utilities import Rank, Suit
 import contracts.engine as E
 from contracts.engine import (collected, eff_ante, p_ante, p_collect, p_blind, p_deal, p_bet, p_show, p_kill, p_push, p_pull,
                               live_count)
@@ -152,6 +153,16 @@ def kill_facts(s):
 
 
 # ---- chips pushing --------------------------------------------------------------------------------------------------------------------
+def known_card(c):
+    return c.rank != Rank.UNKNOWN and c.suit != Suit.UNKNOWN
+
+
+def dealable_count(s):
+    """cards the engine can deal: the remaining deck and -- when it runs out -- the known burnt, mucked and discarded cards"""
+    return (len(s.deck_cards) + sum(1 for x in s.burn_cards if known_card(x)) + sum(1 for x in s.mucked_cards if known_card(x))
+            + sum(sum(1 for x in d if known_card(x)) for d in s.discarded_cards))
+
+
 def board_count_of(s):
     return s.starting_board_count * (s.runout_count if s.street_return_index is not None else 1)
 
